@@ -569,26 +569,26 @@ func c01BodyShape(ref *c01Out) string {
 // ---------------------------------------------------------------------------------------------------------------
 // Cross-validation of the reference against net/http.ReadRequest (second, independent implementation).
 //
-// Every difference must be covered by one of these documented rules (otherwise the run is a tool error):
+// Every difference must be covered by one of the documented rules in c01CrossCheck (otherwise the run is a tool error):
 //
-//	net/http stricter than the lenient reading chosen by the reference (all are "MAY/SHOULD" in RFC 9112):
+//	(A) net/http rejects what the reference does not reject
 //	 leading-empty-line        net/http does not skip empty lines before the request-line [2.2 SHOULD]
 //	 lenient-request-line-ws   net/http splits the request-line on single SP only [3 MAY]
-//	 ws-line-after-start-line  net/http rejects a whitespace-preceded first header line [2.2 either]
-//	 no-colon-line, invalid-field-name, ctl-in-value   net/http rejects malformed field lines (RFC: no framing meaning)
-//	 te-extra-codings, te-repeated-lines, te-empty-list-element   net/http supports exactly one "chunked" value
-//	 chunk-malformed-ext, chunk-bare-lf   net/http rejects bare LF in chunk framing / over-long or odd chunk lines
-//	 non-1x-version            net/http rejects HTTP/2.0 request lines ("malformed HTTP version" or PRI handling)
+//	 ws-line-after-start-line  net/http rejects a whitespace-preceded first header line [2.2: reject or ignore]
+//	 no-colon-line, invalid-field-name, ctl-in-value   net/http rejects malformed field lines (no framing meaning in the RFC)
+//	 te-extra-codings, te-repeated-lines, te-empty-list-element, identity   net/http supports exactly one "chunked" value
+//	 chunk-malformed-ext, chunk-bare-lf, chunk-ext-bws   net/http rejects bare LF / odd extension text / BWS in chunk-size lines
+//	 non-1x-version            net/http rejects HTTP/2.0 request lines
 //	 chunk-size-17-digits      net/http limits chunk sizes to 16 hex digits even if they are leading zeros
-//	 connect/asterisk targets  net/http validates the request-target form (not a framing matter)
-//	net/http more lenient than RFC 9112 (the reference follows the RFC):
+//	 request-target-form       net/http validates the request-target / method form (not a framing matter)
+//	 trailer-syntax            net/http parses trailers with textproto and rejects lines the reference skips
+//	 net/http-validates-cl-despite-te   [6.3 r3] Transfer-Encoding overrides Content-Length whatever its value
+//	 net/http-rejects-cl-list-form      RFC 9110 8.6 MAY: "5, 5" acceptable as 5; net/http only folds repeated lines
+//	(B) net/http does not reject what RFC 9112 says MUST be rejected
 //	 no-host                   ReadRequest leaves the Host requirement to http.Server [3.2]
-//	 te-on-http10              net/http ignores Transfer-Encoding on HTTP/1.0 and uses Content-Length / no body (Go issue 12785)
-//	 ws-before-colon           (net/http rejects too; listed for completeness — no difference expected)
-//	 dup-cl                    net/http folds identical repeated Content-Length lines (RFC 9110 8.6 MAY) without closing
-//	 cl+te                     net/http lets chunked win and does not itself mark the connection (Server does)
-//	 bad-cl                    textproto trims OWS; "+5"/"5,5" are rejected like the reference; differences only on list forms "5, 5"
-//	 trailer syntax            net/http parses trailers with textproto (rejects malformed trailer lines the reference skips)
+//	 ws-before-colon           net/http keeps "Name : v" as an unrecognised field (golang.org/issue/34540) [5.1 MUST reject]
+//	 chunk-size-uint64         16 hex digits fit net/http's uint64; the reference limits sizes to 63 bits
+//	(C) te-on-http10           net/http ignores Transfer-Encoding on HTTP/1.0 (golang.org/issue/12785) [6.1: faulty framing]
 type c01NH struct {
 	kind           int
 	method, target string
@@ -656,7 +656,7 @@ func c01CrossCheck(s []byte, o int, ref *c01Out) string {
 		case ref.reason == "te-identity" || ref.reason == "te-identity+cl":
 			// net/http supports only "chunked"; the property tolerates a lone identity
 			return "explained:net/http-rejects-identity"
-		case ref.reason == "cl+te" && strings.Contains(nh.err, "Content-Length"):
+		case ref.has("cl+te-present") && strings.Contains(nh.err, "Content-Length"):
 			// [6.3 r3] Transfer-Encoding overrides Content-Length whatever its value; net/http validates the value first
 			return "explained:net/http-validates-cl-despite-te"
 		case ref.reason == "dup-cl" && strings.Contains(nh.err, "bad Content-Length"):
@@ -936,6 +936,25 @@ func TestVerif_C01(t *testing.T) {
 			st.flush(r)
 		})
 		r.Set("pipelines_"+label, pipelines.Load())
+	}
+	for _, smp := range []string{
+		"GET /r0 HTTP/1.1\r\nHost: h\r\n\r\n" + c01Canary,
+		"POST /r0 HTTP/1.1\r\nHost: h\r\nContent-Length: 5\r\nTransfer-Encoding: chunked\r\n\r\n5\r\nhello\r\n0\r\n\r\n" + c01Canary,
+		"POST /r0 HTTP/1.1\r\nHost: h\r\nContent-Length: 5\r\nContent-Length: 6\r\n\r\nhello" + c01Canary,
+		"POST /r0 HTTP/1.0\r\nTransfer-Encoding: chunked\r\n\r\n5\r\nhello\r\n0\r\n\r\n" + c01Canary,
+	} {
+		ref := c01Ref([]byte(smp), 0)
+		var alts []string
+		for _, a := range ref.alts {
+			alts = append(alts, fmt.Sprintf("%s body=%s end=%d", a.how, vrt.Q(a.body), a.end))
+		}
+		run := c01Serve(c01Cfg{bufSize: 4096}, [][]byte{[]byte(smp)})
+		var calls []string
+		for _, c := range run.calls {
+			calls = append(calls, c.method+" "+c.target+" body="+vrt.Q(c.body))
+		}
+		r.Sample(map[string]any{"stream": vrt.Q([]byte(smp)), "reference_first_message": map[string]any{"kind": []string{"incomplete", "reject", "accept"}[ref.kind], "reason": ref.reason,
+			"must_close": ref.mustClose, "admissible": alts}, "server_dispatched": calls, "server_final_responses": len(run.resps), "read_after_last_write": run.readAgain})
 	}
 	enumerate(1, devSingle, "A_canary")
 	if !r.Expired() {
